@@ -16,5 +16,5 @@ open(f,'w').write(s.replace(old,new,1))
 PY
 rc=$?
 if [ $rc -ne 0 ]; then git checkout -- .; exit $rc; fi
-( cd /verif && VERIF_CHECKS=${VERIF_CHECKS:-} ./vcheck "$prop" "$tier" 2>&1 | grep -E "^(VIOLATION|OK|INCONCLUSIVE|BUILD-FAILED|KNOWN)" | head -3 )
+( cd /verif && VERIF_EVIDENCE_DIR=/verif/.build/mutant-evidence VERIF_CHECKS=${VERIF_CHECKS:-} ./vcheck "$prop" "$tier" 2>&1 | grep -E "^(VIOLATION|OK|INCONCLUSIVE|BUILD-FAILED|KNOWN)" | head -3 )
 git checkout -- .
